@@ -1,0 +1,96 @@
+//go:build verif
+
+// Verification contracts for the S3 health monitor (C25; comment-only; read by /verif/govc).
+// This file contains no executable code.
+//
+// float64 is modelled as exact real arithmetic (the error rate is a quotient of two small integers, compared
+// with configured thresholds). time.Time is a point tinst(t) on an integer nanosecond line (spec/time_ops.spec).
+// sumInt / countTrue are the mathematical sum / count over the first n samples.
+
+package broker
+
+// The rating prescribed by the property: a function of the window's mean latency, its error fraction and the
+// thresholds only; "unavailable" is worse than "degraded" is worse than "healthy".
+//@ spec func rateOf(avg time.Duration, er float64, cfg S3HealthConfig) S3HealthState = ite(avg >= cfg.LatencyCrit || er >= cfg.ErrorCrit, "unavailable", ite(avg >= cfg.LatencyWarn || er >= cfg.ErrorWarn, "degraded", "healthy"))
+//@ spec func rank(s S3HealthState) int = ite(s == "healthy", 0, ite(s == "degraded", 1, 2))
+//@ spec func avgOf(samples []s3Sample) time.Duration = ite(len(samples) == 0, 0, sumInt(samples, "latency", len(samples)) / len(samples))
+//@ spec func errRateOf(samples []s3Sample) float64 = ite(len(samples) == 0, real(0), ratio(countTrue(samples, "err", len(samples)), len(samples)))
+
+// Thresholds as NewS3HealthMonitor leaves them (all positive); the sample cap is bounded so that the latency sum
+// of a full window cannot overflow int64 (2^20 samples of at most 2^42 ns, ~73 min, each).
+//@ spec func cfgOK(cfg S3HealthConfig) bool = cfg.Window > 0 && cfg.Window <= 4611686018427387904 && cfg.LatencyWarn > 0 && cfg.LatencyCrit > 0 && cfg.ErrorWarn > real(0) && cfg.ErrorCrit > real(0) && cfg.MaxSamples > 0 && cfg.MaxSamples <= 1048576
+// Representation invariant of the monitor: samples are in time order, latencies are sane, the cap holds.
+// Quantified facts are stated over absolute positions p of the backing array (off(s) <= p < off(s)+len(s)), so that
+// they instantiate on any element term regardless of how a sub-slice offset was computed.
+//@ spec func inS(s []s3Sample, p int) bool = off(s) <= p && p < off(s) + len(s)
+//@ spec func sAt(s []s3Sample, p int) s3Sample = s[p - off(s)]
+//@ spec func samplesOK(samples []s3Sample) bool = len(samples) <= 1048576 && (forall p int :: inS(samples, p) ==> 0 <= sAt(samples, p).latency && sAt(samples, p).latency <= 4398046511104) && (forall p int, q int :: inS(samples, p) && inS(samples, q) && p <= q ==> tinst(sAt(samples, p).ts) <= tinst(sAt(samples, q).ts))
+//@ spec func monOK(m *S3HealthMonitor) bool = cfgOK(m.cfg) && samplesOK(m.samples)
+
+//@ func NewS3HealthMonitor
+//@   requires cfg.MaxSamples <= 1048576 && cfg.Window <= 4611686018427387904
+//@   ensures [C25.new_monitor_ok] result != nil && monOK(result) && len(result.samples) == 0 && result.state == "healthy"
+//@   ensures [C25.new_keeps_positive_thresholds] (cfg.LatencyWarn > 0 ==> result.cfg.LatencyWarn == cfg.LatencyWarn) && (cfg.LatencyCrit > 0 ==> result.cfg.LatencyCrit == cfg.LatencyCrit) && (cfg.ErrorWarn > real(0) ==> result.cfg.ErrorWarn == cfg.ErrorWarn) && (cfg.ErrorCrit > real(0) ==> result.cfg.ErrorCrit == cfg.ErrorCrit) && (cfg.Window > 0 ==> result.cfg.Window == cfg.Window)
+
+//@ func (m *S3HealthMonitor) setStateLocked
+//@   ensures [C25.set_state] m.state == next && (old(m.state) == next ==> m.stateSince == old(m.stateSince)) && sameSlice(m.samples, old(m.samples)) && m.cfg == old(m.cfg) && m.avgLatency == old(m.avgLatency) && m.errorRate == old(m.errorRate)
+
+// Drops exactly the leading samples that are not after now-Window; what remains is the old tail, unchanged.
+//@ func (m *S3HealthMonitor) truncateLocked
+//@   requires monOK(m)
+//@   ensures [C25.truncate_keeps_tail] let k = old(len(m.samples)) - len(m.samples) in (0 <= k && (forall j int :: 0 <= j && j < len(m.samples) ==> m.samples[j] == old(m.samples[j+k])))
+//@   ensures [C25.truncate_drops_only_expired] let k = old(len(m.samples)) - len(m.samples) in (forall j int :: 0 <= j && j < k ==> tinst(old(m.samples[j]).ts) <= tinst(now) - m.cfg.Window)
+//@   ensures [C25.truncate_window_only] forall p int :: inS(m.samples, p) ==> tinst(sAt(m.samples, p).ts) > tinst(now) - m.cfg.Window
+//@   ensures [C25.truncate_frame] monOK(m) && m.cfg == old(m.cfg) && m.state == old(m.state)
+//@   loop 1 invariant -1 <= rangeindex && rangeindex < len(m.samples) && idx == rangeindex + 1 && sameSlice(m.samples, old(m.samples)) && tinst(cutoff) == tinst(now) - m.cfg.Window
+//@   loop 1 invariant forall p int :: off(m.samples) <= p && p < off(m.samples) + idx ==> tinst(sAt(m.samples, p).ts) <= tinst(cutoff)
+
+// The published aggregates are the mean latency and the error fraction of the retained samples, and the state is
+// the prescribed rating of exactly these two numbers.
+//@ func (m *S3HealthMonitor) recomputeLocked
+//@   requires monOK(m)
+//@   ensures [C25.avg_is_window_mean] m.avgLatency == avgOf(m.samples)
+//@   ensures [C25.error_rate_is_window_fraction] m.errorRate == errRateOf(m.samples)
+//@   ensures [C25.rating_thresholds] m.state == rateOf(m.avgLatency, m.errorRate, m.cfg)
+//@   ensures [C25.rating_monotone] forall a2 time.Duration, e2 float64 :: a2 >= m.avgLatency && e2 >= m.errorRate ==> rank(rateOf(a2, e2, m.cfg)) >= rank(m.state)
+//@   ensures [C25.recompute_frame] sameSlice(m.samples, old(m.samples)) && m.cfg == old(m.cfg)
+//@   loop 1 invariant -1 <= rangeindex && rangeindex < len(m.samples) && sameSlice(m.samples, old(m.samples)) && m.cfg == old(m.cfg)
+//@   loop 1 invariant totalLatency == sumInt(m.samples, "latency", rangeindex + 1) && 0 <= totalLatency && totalLatency <= (rangeindex + 1) * 4398046511104
+//@   loop 1 invariant errorCount == countTrue(m.samples, "err", rangeindex + 1) && 0 <= errorCount && errorCount <= rangeindex + 1
+
+// State / Snapshot: what the broker's gates observe. The returned rating is the prescribed function of the mean
+// latency and error fraction of the samples retained after dropping everything older than the window (gnow is the
+// instant time.Now returned inside the call), and any higher mean latency / error fraction would rate no better.
+//@ func (m *S3HealthMonitor) State
+//@   requires monOK(m)
+//@   ghost gnow Int = 0
+//@   at Now#1 after set gnow = tinst(ret0)
+//@   ensures [C25.state_is_window_rating] result == m.state && result == rateOf(avgOf(m.samples), errRateOf(m.samples), m.cfg)
+//@   ensures [C25.state_window_only] forall p int :: inS(m.samples, p) ==> tinst(sAt(m.samples, p).ts) > gnow - m.cfg.Window
+//@   ensures [C25.state_monotone] forall a2 time.Duration, e2 float64 :: a2 >= avgOf(m.samples) && e2 >= errRateOf(m.samples) ==> rank(rateOf(a2, e2, m.cfg)) >= rank(result)
+//@   ensures [C25.state_three_values] result == "healthy" || result == "degraded" || result == "unavailable"
+//@   ensures [C25.state_keeps_invariant] monOK(m) && m.cfg == old(m.cfg)
+//@
+//@ func (m *S3HealthMonitor) Snapshot
+//@   requires monOK(m)
+//@   ghost gnow Int = 0
+//@   at Now#1 after set gnow = tinst(ret0)
+//@   ensures [C25.snapshot_is_window_rating] result.State == m.state && result.State == rateOf(avgOf(m.samples), errRateOf(m.samples), m.cfg) && result.AvgLatency == avgOf(m.samples) && result.ErrorRate == errRateOf(m.samples)
+//@   ensures [C25.snapshot_window_only] forall p int :: inS(m.samples, p) ==> tinst(sAt(m.samples, p).ts) > gnow - m.cfg.Window
+//@   ensures [C25.snapshot_keeps_invariant] monOK(m) && m.cfg == old(m.cfg)
+//@
+// RecordOperation: the new sample is appended (the clock is assumed not to run backwards with respect to the last
+// recorded sample), the cap and the window are applied, and the state is re-rated.
+//@ func (m *S3HealthMonitor) RecordOperation
+//@   requires monOK(m) && 0 <= latency && latency <= 4398046511104
+//@   ghost gnow Int = 0
+//@   at Now#1 after set gnow = tinst(ret0)
+//@   at Now#1 after assume len(m.samples) > 0 ==> tinst(ret0) >= tinst(m.samples[len(m.samples)-1].ts)
+//@   at truncateLocked#1 before assert [C25.record_appends_sample] len(m.samples) >= 1 && len(m.samples) <= m.cfg.MaxSamples && m.samples[len(m.samples)-1].latency == latency && m.samples[len(m.samples)-1].err == (err != nil) && tinst(m.samples[len(m.samples)-1].ts) == gnow
+//@   ensures [C25.record_rates_window] m.state == rateOf(avgOf(m.samples), errRateOf(m.samples), m.cfg)
+//@   ensures [C25.record_window_only] forall p int :: inS(m.samples, p) ==> tinst(sAt(m.samples, p).ts) > gnow - m.cfg.Window
+//@   ensures [C25.record_keeps_invariant] monOK(m) && m.cfg == old(m.cfg)
+//@
+//@ func (m *S3HealthMonitor) RecordUpload
+//@   requires monOK(m) && 0 <= latency && latency <= 4398046511104
+//@   ensures [C25.upload_keeps_invariant] monOK(m) && m.cfg == old(m.cfg)
